@@ -613,6 +613,10 @@ class DataFrameSchemaBackend(PolarsSchemaBackend):
             subset = [
                 x for x in lst if x in get_lazyframe_column_names(check_obj)
             ]
+            if not subset:
+                # none of the columns is in the dataframe, e.g. optional
+                # columns that were not supplied
+                continue
             duplicates = check_obj.select(subset).collect().is_duplicated()
             if duplicates.any():
                 failure_cases = check_obj.filter(duplicates)
